@@ -14,11 +14,41 @@ def decode(p):
         return p
 
 
+def frames_equal(go, model):
+    """F section: the call frames of the program in creation order. Go (hook func.frame, hooks/C05.patch) reports scope
+    name > name of the scope it is linked to [names held when the body starts, sorted]; the model reports the same
+    with the names of the FINAL frame in insertion order: the names at the start must be exactly its first ones
+    (this / super / parameters come first: frame_contents). `F nohook`: the tree has no hook, nothing to compare."""
+    if go == "F nohook":
+        return True
+    gf = [x for x in go[2:].split("|") if x]
+    mf = [x for x in model[2:].split("|") if x]
+    if len(gf) != len(mf):
+        return False
+    for g, m in zip(gf, mf):
+        gh, gn = g.split("[", 1)
+        mh, mn = m.split("[", 1)
+        gnames = [x for x in gn.rstrip("]").split(",") if x]
+        mnames = [x for x in mn.rstrip("]").split(",") if x]
+        if gh != mh or sorted(mnames[:len(gnames)]) != sorted(gnames):
+            return False
+    return True
+
+
 def equal(go, model, attrs):
     """section-wise comparison: the model prints U for a probe section it cannot give (value it does not know, or the
-    probe left the model: then also every later section); everything else must be equal, section by section"""
+    probe left the model: then also every later section); the F section is compared by frames_equal; everything else
+    must be equal, section by section"""
     gs, ms = go.split(";"), model.split(";")
-    return len(gs) == len(ms) and all(y == "U" or x == y for x, y in zip(gs, ms))
+    if len(gs) != len(ms):
+        return False
+    for x, y in zip(gs, ms):
+        if y == "U" or x == y:
+            continue
+        if x.startswith("F ") and y.startswith("F ") and frames_equal(x, y):
+            continue
+        return False
+    return True
 
 
 SPEC = dict(
